@@ -228,7 +228,9 @@ impl SmartCalcConfig {
         for (language, language_constant) in config.json_data.languages.iter() {
             let mut language_group = Vec::new();
             let mut month_list = Vec::with_capacity(12);
+            let mut month_names: Vec<Vec<String>> = Vec::with_capacity(12);
             for i in 0..12 {
+                month_names.push(Vec::new());
                 month_list.push(MonthInfo {
                     short: String::new(),
                     long: String::new(),
@@ -238,20 +240,27 @@ impl SmartCalcConfig {
 
             for (month_name, month_number) in &language_constant.long_months {
                 match month_list.get_mut((*month_number - 1) as usize) {
-                    Some(month_object) => month_object.long = month_name.to_string(),
+                    Some(month_object) => {
+                        month_object.long = month_name.to_string();
+                        month_names[(*month_number - 1) as usize].push(month_name.to_string());
+                    },
                     None => log::warn!("Month not fetched. {}", month_number)
                 };
             }
 
             for (month_name, month_number) in &language_constant.short_months {
                 match month_list.get_mut((*month_number - 1) as usize) {
-                    Some(month_object) => month_object.short = month_name.to_string(),
+                    Some(month_object) => {
+                        month_object.short = month_name.to_string();
+                        month_names[(*month_number - 1) as usize].push(month_name.to_string());
+                    },
                     None => log::warn!("Month not fetched. {}", month_number)
                 };
             }
 
-            for month in month_list.iter() {
-                let pattern = &format!(r"\b{}\b|\b{}\b", month.long, month.short);
+            for (month, names) in month_list.iter().zip(month_names.iter()) {
+                /* Every configured spelling of the month is recognised */
+                let pattern = &names.iter().map(|name| format!(r"\b{}\b", name)).collect::<Vec<_>>().join("|");
                 match Regex::new(pattern) {
                     Ok(re) => language_group.push((re, month.clone())),
                     Err(error) => log::error!("Month parser error ({}) {}", month.long, error)
